@@ -43,6 +43,18 @@ def run(rep, tier, seed, replay=None):
             if not subs[0]:
                 continue
             jobs.append((dict(ed=ed, tmpl=tmpl, subsets=subs, same=True), comp))
+        # delayed replication that enters only through a Table D sequence (no 1 XX 000 in Section 3 itself), uncompressed, with
+        # counts that differ between subsets: skipping is impossible here although the Section 3 list shows no replication
+        dseq_delayed = [d for d in (306001, 306004, 306005, 306041, 307012, 307014, 307016, 302036) if d in ctx.T.D]
+        for _ in range(12 if tier == "quick" else 100):
+            if not dseq_delayed:
+                break
+            tmpl = tg.elem(("num", "code")) + [rng.choice(dseq_delayed)] + tg.elem(("num",))
+            try:
+                subs = gen.gen_dataset(rng, ctx.T, 4, tmpl, rng.choice([3, 4, 5]), same_structure=False)
+                jobs.append((dict(ed=4, tmpl=tmpl, subsets=subs, same=False), 0))
+            except gen.Reject:
+                pass
         # byte-aligned layouts on purpose: 2 x 4-bit code tables = 8 bits per subset, 16-bit element
         for comp in (0, 1):
             for tmpl in ([20011, 20011], [12101], [20011, 20011, 12101, 1015]):
